@@ -6,9 +6,11 @@
 
    Structure: (1) the regenerated shapes are good (boolean predicate, by computation);
    (2) for EVERY good shape record, all oracles within their documented raise-sets, every validator tree and
-   every value the model returns what the specification (Spec/ValidatorsSpec.v, written from the property
-   text) demands - outside four exactly delimited regions, each of which is refuted by a witness that is
-   an open known finding on the real code; (3) what the specification means for each validator.          *)
+   every value of its input domain the model returns what the specification (Spec/ValidatorsSpec.v, written
+   from the property text) demands; (3) what the specification means for each validator.
+   Round 1 had four refuted regions here (NaN under Min/Max, fractional / infinite floats under
+   IsEnum(IntEnum), ints beyond the float range under DateTimeUnixTimestamp); they were repaired in /repo
+   (bfea338, 7092399, c700fb9) and the _partial / _refuted theorems are now the full statements below.      *)
 From Coq Require Import List ZArith Bool SpecFloat.
 From PV Require Import Base.Exn Model.ValidatorsBase Model.ValidatorsRegex Gen.Validators Model.Validators
                        Spec.ValidatorsSpec Proofs.ValidatorsRegexProofs Proofs.ValidatorsPrims Proofs.ValidatorsGood
@@ -27,44 +29,41 @@ Proof. vm_compute. reflexivity. Qed.
 Print Assumptions C14_shapes_good.
 
 (* ---------- (2) the model meets the specification ------------------------------------------------------- *)
-(* Full statement (FALSE, see the _refuted theorems):
-     forall O w v, oracles_ok O -> spec O w v <> SOut -> validate O w v = outcome_of (spec O w v).
-   Proved under the narrowest guard: `gaps O w v = []` - no NaN under Min/Max, no float under
-   IsEnum(IntEnum) that is infinite or whose truncation hits a member, no int beyond the float range under
-   DateTimeUnixTimestamp, met on the documented evaluation path through Composite / ForEach.
-   For all validator trees (any nesting), all values, all oracle behaviours within the raise-sets.        *)
-Theorem C14_validate_meets_spec_partial : forall O, oracles_ok O -> forall w v,
-  gaps O w v = [] -> spec O w v <> SOut -> validate O w v = outcome_of (spec O w v).
+(* For all validator trees (any nesting), all values of the input domain (spec <> SOut: e.g. numbers for
+   Min / Max, strings for Email), all oracle behaviours within the raise-sets.                             *)
+Theorem C14_validate_meets_spec : forall O, oracles_ok O -> forall w v,
+  spec O w v <> SOut -> validate O w v = outcome_of (spec O w v).
 Proof. intros O HO. exact (validate_refines_spec gen_shapes O C14_shapes_good HO). Qed.
-Print Assumptions C14_validate_meets_spec_partial.
+Print Assumptions C14_validate_meets_spec.
 
 (* every rejection is a ValidatorException, whatever the stdlib oracles raise within their raise-sets *)
-Theorem C14_rejections_are_ValidatorExc_partial : forall O, oracles_ok O -> forall w v,
-  gaps O w v = [] -> spec O w v <> SOut ->
+Theorem C14_rejections_are_ValidatorExc : forall O, oracles_ok O -> forall w v,
+  spec O w v <> SOut ->
   (exists r, validate O w v = Ok r) \/ validate O w v = Raise VEC.
 Proof.
-  intros O HO w v Hg Hs. rewrite (C14_validate_meets_spec_partial O HO w v Hg Hs).
+  intros O HO w v Hs. rewrite (C14_validate_meets_spec O HO w v Hs).
   destruct (spec O w v); simpl; eauto.
 Qed.
-Print Assumptions C14_rejections_are_ValidatorExc_partial.
+Print Assumptions C14_rejections_are_ValidatorExc.
 
 Theorem C14_validate_param_same : forall O w v, validate_param O w v = validate O w v.
 Proof. intros O w v. exact (validate_param_same gen_shapes O C14_shapes_good w v). Qed.
 Print Assumptions C14_validate_param_same.
 
-(* ---------- (3) Min / Max: all bounds, all numbers (ints, bools, every float incl. +-0.0 and +-inf) ------ *)
-(* sat_min b incl v is `v >= b` (resp. `v > b`) on the extended rationals (Spec/ValidatorsSpec.v) *)
-Theorem C14_min_exact_partial : forall O b incl v,
-  is_number v = true -> is_number b = true -> is_nan v = false -> is_nan b = false ->
+(* ---------- (3) Min / Max: all bounds, all numbers (ints, bools, every float incl. +-0.0, +-inf and NaN) -- *)
+(* sat_min b incl v is `v >= b` (resp. `v > b`) on the extended rationals (Spec/ValidatorsSpec.v); NaN is no
+   rational and satisfies no bound *)
+Theorem C14_min_exact : forall O b incl v,
+  is_number v = true -> is_number b = true ->
   validate O (WMin b incl) v = if sat_min b incl v then Ok v else Raise VEC.
 Proof. intros O. exact (min_exact gen_shapes O C14_shapes_good). Qed.
-Print Assumptions C14_min_exact_partial.
+Print Assumptions C14_min_exact.
 
-Theorem C14_max_exact_partial : forall O b incl v,
-  is_number v = true -> is_number b = true -> is_nan v = false -> is_nan b = false ->
+Theorem C14_max_exact : forall O b incl v,
+  is_number v = true -> is_number b = true ->
   validate O (WMax b incl) v = if sat_max b incl v then Ok v else Raise VEC.
 Proof. intros O. exact (max_exact gen_shapes O C14_shapes_good). Qed.
-Print Assumptions C14_max_exact_partial.
+Print Assumptions C14_max_exact.
 
 (* the boundary spelled out on ints: equal to the bound is accepted exactly with include_boundary *)
 Theorem C14_minmax_int_boundary : forall O b z incl,
@@ -72,30 +71,17 @@ Theorem C14_minmax_int_boundary : forall O b z incl,
   (validate O (WMax (VInt b) incl) (VInt z) = if (if incl then z <=? b else z <? b) then Ok (VInt z) else Raise VEC).
 Proof.
   intros O b z incl. split.
-  - rewrite C14_min_exact_partial by reflexivity. now rewrite sat_min_int.
-  - rewrite C14_max_exact_partial by reflexivity. now rewrite sat_max_int.
+  - rewrite C14_min_exact by reflexivity. now rewrite sat_min_int.
+  - rewrite C14_max_exact by reflexivity. now rewrite sat_max_int.
 Qed.
 Print Assumptions C14_minmax_int_boundary.
 
-(* finding C14-K8a: NaN satisfies no bound, yet it passes every Min and every Max (and a NaN bound lets
-   every number through) *)
-Theorem C14_minmax_nan_refuted : exists b incl v,
-  is_number v = true /\ is_number b = true /\ sat_min b incl v = false /\ sat_max b incl v = false /\
-  forall O, validate O (WMin b incl) v = Ok v /\ validate O (WMax b incl) v = Ok v.
-Proof.
-  exists (VInt 3), true, (VFloat S754_nan). repeat split; try reflexivity.
-Qed.
-Print Assumptions C14_minmax_nan_refuted.
-
-Theorem C14_minmax_nan_accepted_everywhere : forall O b incl v,
+(* former finding C14-K8a (fixed by bfea338): NaN - as value or as bound - is rejected by every Min and every Max *)
+Theorem C14_minmax_nan_rejected : forall O b incl v,
   is_number v = true -> is_number b = true -> is_nan v || is_nan b = true ->
-  validate O (WMin b incl) v = Ok v /\ validate O (WMax b incl) v = Ok v.
-Proof.
-  intros O b incl v Nv Nb A. split.
-  - exact (min_nan_accepts gen_shapes O C14_shapes_good b incl v Nv Nb A).
-  - exact (max_nan_accepts gen_shapes O C14_shapes_good b incl v Nv Nb A).
-Qed.
-Print Assumptions C14_minmax_nan_accepted_everywhere.
+  validate O (WMin b incl) v = Raise VEC /\ validate O (WMax b incl) v = Raise VEC.
+Proof. intros O. exact (minmax_nan_rejected gen_shapes O C14_shapes_good). Qed.
+Print Assumptions C14_minmax_nan_rejected.
 
 (* ---------- MinLength / MaxLength: every limit, every value, in particular length = limit ------------------ *)
 Theorem C14_minlen_exact : forall O n v,
@@ -170,30 +156,34 @@ Theorem C14_foreach : forall O cs items rs,
 Proof. intros O. exact (foreach_ok_iff gen_shapes O C14_shapes_good). Qed.
 Print Assumptions C14_foreach.
 
-(* ---------- IsEnum / DateTimeUnixTimestamp: the remaining gaps, each with its witness ------------------------ *)
-(* finding C14-K8b: 1.5 is no member of {1, 2} but is accepted as member 1 *)
-Theorem C14_isenum_fractional_refuted : exists ms v, forall O,
-  spec O (WIsEnum ms true true true) v = SReject /\ validate O (WIsEnum ms true true true) v = Ok (VOpq K_ENUM [0]).
+(* ---------- IsEnum / DateTimeUnixTimestamp: the former gaps, now theorems ------------------------------------- *)
+(* former findings C14-K8b / K8c (fixed by 7092399): under an IntEnum a float is accepted exactly when it is a whole
+   number whose value is the value of a member; 1.5, inf and nan are rejected with ValidatorException *)
+Theorem C14_isenum_intenum_float : forall O, oracles_ok O -> forall ms convert upper f,
+  validate O (WIsEnum ms true convert upper) (VFloat f) =
+  match (if float_is_integral f then match int_of_float f with Ok z => member_of ms (VInt z) | Raise _ => None end
+         else None) with
+  | Some m => Ok (if convert then m else VFloat f)
+  | None => Raise VEC
+  end.
 Proof.
-  exists [VInt 1; VInt 2], (VFloat (S754_finite false 6755399441055744 (-52))). intro O. split; reflexivity.
+  intros O HO ms convert upper f.
+  rewrite (C14_validate_meets_spec O HO (WIsEnum ms true convert upper) (VFloat f)).
+  - cbn [spec int_denoted]. destruct (float_is_integral f); [|reflexivity].
+    destruct (int_of_float f) as [z|e]; [|reflexivity]. now destruct (member_of ms (VInt z)).
+  - cbn [spec]. now destruct (match int_denoted O ms (VFloat f) with Some z => member_of ms (VInt z) | None => None end).
 Qed.
-Print Assumptions C14_isenum_fractional_refuted.
+Print Assumptions C14_isenum_intenum_float.
 
-(* finding C14-K8c: float('inf') leaves as OverflowError *)
-Theorem C14_isenum_inf_refuted : exists ms v, forall O,
-  spec O (WIsEnum ms true true true) v = SReject /\ validate O (WIsEnum ms true true true) v = Raise OverflowErrorC.
+(* former finding C14-K8d (fixed by c700fb9): an int beyond the float range is rejected with ValidatorException *)
+Theorem C14_unix_int_overflow_rejected : forall O, oracles_ok O -> forall z e,
+  float_of_Z z = Raise e -> validate O WUnix (VInt z) = Raise VEC.
 Proof.
-  exists [VInt 1; VInt 2], (VFloat (S754_infinity false)). intro O. split; reflexivity.
+  intros O HO z e F. rewrite (C14_validate_meets_spec O HO WUnix (VInt z)).
+  - cbn [spec seconds_of]. now rewrite F.
+  - cbn [spec seconds_of]. rewrite F. discriminate.
 Qed.
-Print Assumptions C14_isenum_inf_refuted.
-
-(* finding C14-K8d: an int beyond the float range leaves as OverflowError *)
-Theorem C14_unix_int_overflow_refuted : exists v, forall O,
-  spec O WUnix v = SReject /\ validate O WUnix v = Raise OverflowErrorC.
-Proof.
-  exists (VInt (2 ^ 1024)). intro O. split; vm_compute; reflexivity.
-Qed.
-Print Assumptions C14_unix_int_overflow_refuted.
+Print Assumptions C14_unix_int_overflow_rejected.
 
 (* ---------- convert_value ------------------------------------------------------------------------------------------ *)
 Theorem C14_convert_meets_spec : forall O, oracles_ok O -> forall v t, convert O v t = spec_convert O v t.
@@ -206,27 +196,40 @@ Theorem C14_convert_type_or_ConversionErr : forall O, oracles_ok O -> forall v t
 Proof. intros O HO. exact (convert_typed gen_shapes O C14_shapes_good HO). Qed.
 Print Assumptions C14_convert_type_or_ConversionErr.
 
-(* convert_value inverts str() on every int (the decimal printer and the parser are inverse) ... *)
-Theorem C14_convert_inverts_str_int : forall O, oracles_ok O -> forall z,
-  convert O (VStr (py_str O (VInt z))) TInt = Ok (VInt z).
+(* convert_value inverts str() on ints: whenever str(z) exists - at most 4300 digits, CPython's limit - the text
+   is read back as z (the decimal printer and the parser are inverse); beyond the limit str(z) itself fails *)
+Theorem C14_convert_inverts_str_int : forall O, oracles_ok O -> forall z s,
+  py_str O (VInt z) = Ok s -> convert O (VStr s) TInt = Ok (VInt z).
 Proof. intros O HO. exact (convert_inverts_str_int gen_shapes O C14_shapes_good HO). Qed.
 Print Assumptions C14_convert_inverts_str_int.
 
 (* ... and on both bools *)
-Theorem C14_convert_inverts_str_bool : forall O, oracles_ok O -> forall b,
-  convert O (VStr (py_str O (VBool b))) TBool = Ok (VBool b).
+Theorem C14_convert_inverts_str_bool : forall O, oracles_ok O -> forall b s,
+  py_str O (VBool b) = Ok s -> convert O (VStr s) TBool = Ok (VBool b).
 Proof. intros O HO. exact (convert_inverts_str_bool gen_shapes O C14_shapes_good HO). Qed.
 Print Assumptions C14_convert_inverts_str_bool.
 
 (* the bool branch: exactly 'true' / '1' and 'false' / '0' after str().strip().lower() *)
-Theorem C14_convert_bool_table : forall O, oracles_ok O -> forall v, isinstance_t v TBool = false ->
-  let s := py_lower O (py_strip (py_str O v)) in
+Theorem C14_convert_bool_table : forall O, oracles_ok O -> forall v s0, isinstance_t v TBool = false ->
+  py_str O v = Ok s0 ->
+  let s := py_lower O (py_strip s0) in
   convert O v TBool =
     if zlist_eqb s S_true || zlist_eqb s [49] then Ok (VBool true)
     else if zlist_eqb s S_false || zlist_eqb s [48] then Ok (VBool false)
     else Raise ConversionErrorC.
 Proof. intros O HO. exact (convert_bool_table gen_shapes O C14_shapes_good HO). Qed.
 Print Assumptions C14_convert_bool_table.
+
+(* former finding C14-K8e (fixed by 0875924): an int str() refuses to print is a ConversionError for every target
+   but int itself (where the isinstance shortcut returns it) *)
+Theorem C14_convert_digit_limit : forall O, oracles_ok O -> forall z t,
+  py_str O (VInt z) = Raise ValueErrorC -> isinstance_t (VInt z) t = false ->
+  convert O (VInt z) t = Raise ConversionErrorC.
+Proof.
+  intros O HO z t PS I. unfold convert. rewrite (convert_refines_spec gen_shapes O C14_shapes_good HO).
+  unfold spec_convert. now rewrite I, PS.
+Qed.
+Print Assumptions C14_convert_digit_limit.
 
 (* ---------- non-vacuity ---------------------------------------------------------------------------------------------- *)
 (* an oracle record within the raise-sets: every stdlib call fails with its documented exception *)
@@ -239,25 +242,25 @@ Definition O_fail : oracles := {|
 Example C14_oracles_ok_inhabited : oracles_ok O_fail.
 Proof. constructor; intros; reflexivity. Qed.
 
-(* a nested case inside the guard of the _partial theorems, accepted and converted *)
+(* a nested case inside the input domain, accepted and converted *)
 Example C14_example_accept :
   let w := WForEach [WComposite [WMin (VInt 3) true; WMax (VInt 7) false]; WIsEnum [VInt 5; VInt 6] true true true] in
   let v := VList [VInt 5; VFloat (S754_finite false 6755399441055744 (-50)); VInt 6] in
-  gaps O_fail w v = [] /\ spec O_fail w v = SAccept (VList [VOpq K_ENUM [0]; VOpq K_ENUM [1]; VOpq K_ENUM [1]]) /\
+  spec O_fail w v = SAccept (VList [VOpq K_ENUM [0]; VOpq K_ENUM [1]; VOpq K_ENUM [1]]) /\
   validate O_fail w v = Ok (VList [VOpq K_ENUM [0]; VOpq K_ENUM [1]; VOpq K_ENUM [1]]).
 Proof. cbn zeta. repeat split; vm_compute; reflexivity. Qed.
 
 (* ... and rejected at the boundary: 7 is not < 7 *)
 Example C14_example_reject :
   let w := WForEach [WComposite [WMin (VInt 3) true; WMax (VInt 7) false]] in
-  gaps O_fail w (VTuple [VInt 3; VInt 7]) = [] /\ spec O_fail w (VTuple [VInt 3; VInt 7]) = SReject /\
+  spec O_fail w (VTuple [VInt 3; VInt 7]) = SReject /\
   validate O_fail w (VTuple [VInt 3; VInt 7]) = Raise VEC.
 Proof. cbn zeta. repeat split; vm_compute; reflexivity. Qed.
 
 (* the false alarm of round 1: U+001F is whitespace for str.strip() but int() does not skip it *)
 Example C14_int_does_not_skip_separators :
-  py_strip [31; 50] = [50] /\ num_strip [31; 50] = [31; 50] /\ parse_dec (num_strip [31; 50]) = None /\
-  parse_dec (num_strip [133; 50; 160]) = Some 2.
+  py_strip [31; 50] = [50] /\ num_strip [31; 50] = [31; 50] /\ int_of_canonical [31; 50] = None /\
+  int_of_canonical [133; 50; 160] = Some (Ok 2).
 Proof. repeat split; reflexivity. Qed.
 
 Example C14_email_examples :
@@ -265,3 +268,24 @@ Example C14_email_examples :
 Proof.
   rewrite <- !email_predb_iff. repeat split; try reflexivity; vm_compute; congruence.
 Qed.
+
+(* the former witnesses, now on the right side *)
+Example C14_former_witnesses : forall O, oracles_ok O ->
+  validate O (WMin (VInt 3) true) (VFloat S754_nan) = Raise VEC /\
+  validate O (WIsEnum [VInt 1; VInt 2] true true true) (VFloat (S754_finite false 6755399441055744 (-52))) = Raise VEC /\
+  validate O (WIsEnum [VInt 1; VInt 2] true true true) (VFloat (S754_infinity false)) = Raise VEC /\
+  validate O WUnix (VInt (2 ^ 1024)) = Raise VEC /\
+  validate O (WIsEnum [VInt 1; VInt 2] true true true) (VFloat (S754_finite false 4503599627370496 (-51))) = Ok (VOpq K_ENUM [1]).
+Proof.
+  intros O HO. split; [|split; [|split; [|split]]].
+  - apply (C14_minmax_nan_rejected O (VInt 3) true (VFloat S754_nan)); reflexivity.
+  - now rewrite (C14_isenum_intenum_float O HO).
+  - now rewrite (C14_isenum_intenum_float O HO).
+  - apply (C14_unix_int_overflow_rejected O HO _ OverflowErrorC). vm_compute. reflexivity.
+  - now rewrite (C14_isenum_intenum_float O HO).
+Qed.
+
+(* the digit limit is reachable: str(10^4300) fails (4301 digits), small ints print *)
+Example C14_digit_limit_reachable : forall O,
+  py_str O (VInt (10 ^ 4300)) = Raise ValueErrorC /\ py_str O (VInt (-12)) = Ok [45; 49; 50].
+Proof. intro O. split; vm_compute; reflexivity. Qed.
